@@ -1259,6 +1259,11 @@ impl ArchiveBuilder {
             // Multi-sector file
             let sector_count = file_data.len().div_ceil(*sector_size);
 
+            // A sector offset table is always written below, and readers only look for
+            // it on files flagged as compressed. Sectors that do not shrink are stored
+            // raw and are recognised by their stored size equalling the sector size.
+            flags |= BlockEntry::FLAG_COMPRESS;
+
             // Set CRC flag early if enabled (needed for encryption key calculation)
             if self.generate_crcs {
                 flags |= BlockEntry::FLAG_SECTOR_CRC;
